@@ -396,6 +396,46 @@ pub fn run(sink: &mut Sink, rng: &mut Rng, thorough: bool, dir: &Path) {
     sink.emit(&format!("cli_from_cells hpx {} {}", depth, l), &ans, !cells.is_empty());
   }
 
+  // moc from freqval / freqrange: hertz values given as shortest round-trip decimal text (exact bit patterns),
+  // depths on both sides of the automatic FITS narrowing thresholds of the frequency quantity (11 / 27)
+  for it in 0..(if thorough { 120 } else { 24 }) {
+    let depth: u8 = match it % 4 { 0 => 10 + rng.below(5) as u8, 1 => 26 + rng.below(5) as u8, 2 => rng.below(60) as u8, _ => 59 };
+    let k = 1 + rng.below(5) as usize;
+    let bits: Vec<u64> = (0..k).map(|_| (929u64 << 52) + rng.below((256u64 << 52) - 1)).collect();
+    let input = bits.iter().map(|b| format!("{:?}", f64::from_bits(*b))).collect::<Vec<_>>().join("\n") + "\n";
+    let outp = dir.join("from_f.fits");
+    let _ = fs::remove_file(&outp);
+    let flags: Vec<&str> = if rng.chance(1, 4) { vec!["-f"] } else { vec![] };
+    let ds = depth.to_string();
+    let mut args: Vec<&str> = vec!["from", "freqval", &ds, "-", "fits"];
+    args.extend(flags.iter());
+    args.push(outp.to_str().unwrap());
+    let o = moc(&args, Some(&input));
+    let ans = if o.code == 0 { decode(&outp, "fits", "freq") } else { format!("exit {} {}", o.code, o.err.lines().next().unwrap_or("")) };
+    if o.code == 101 {
+      sink.impl_failures.push(format!("cli-panic: moc from freqval depth {}: {}", depth, o.err.lines().next().unwrap_or("")));
+    }
+    sink.count("from:freqval");
+    sink.emit(&format!("f_moc 64 {} 100000 {}", depth, bits.iter().map(|b| b.to_string()).collect::<Vec<_>>().join(",")), &ans, true);
+    // ranges
+    let mut rs: Vec<(u64, u64)> = Vec::new();
+    for c in bits.chunks(2) { if c.len() == 2 && c[0] != c[1] { rs.push((c[0].min(c[1]), c[0].max(c[1]))); } }
+    if rs.is_empty() { continue; }
+    let input = rs.iter().map(|r| format!("{:?} {:?}", f64::from_bits(r.0), f64::from_bits(r.1))).collect::<Vec<_>>().join("\n") + "\n";
+    let outp = dir.join("from_fr.fits");
+    let _ = fs::remove_file(&outp);
+    let mut args: Vec<&str> = vec!["from", "freqrange", &ds, "-", "fits"];
+    args.extend(flags.iter());
+    args.push(outp.to_str().unwrap());
+    let o = moc(&args, Some(&input));
+    let ans = if o.code == 0 { decode(&outp, "fits", "freq") } else { format!("exit {} {}", o.code, o.err.lines().next().unwrap_or("")) };
+    if o.code == 101 {
+      sink.impl_failures.push(format!("cli-panic: moc from freqrange depth {}: {}", depth, o.err.lines().next().unwrap_or("")));
+    }
+    sink.count("from:freqrange");
+    sink.emit(&format!("f_mocr 64 {} 100000 {}", depth, rs.iter().map(|r| format!("{}-{}", r.0, r.1)).collect::<Vec<_>>().join(",")), &ans, true);
+  }
+
   // ---------------- invalid inputs: non-zero status + message, never a crash
   let good = dir.join("good.fits");
   let m: RangeMOC<u64, Hpx<u64>> = mk_moc(3, &random_moc_ranges::<u64, Hpx<u64>>(rng, 3, 4));
